@@ -237,6 +237,23 @@ def analyse_record(ctx: Ctx, run: Run, rec: sym.Record, module: str, root: str, 
         run.ob("R1", module_of(p.func), scope, construct, ok, what,
                facts={"class": cls, "source": desc, "path_condition": cond[:200], "discharged_by": why, "root": root},
                line=p.lineno)
+    # next(iterator) without a default is partial too: on an exhausted iterator it raises StopIteration, which inside a
+    # generator body becomes RuntimeError (PEP 479) and ends the whole trace stream
+    for c in rec.calls:
+        if c.func == T("builtin", ("next",)) and len(c.args) == 1 and not c.kwargs:
+            guarded = any(any(nm.split(".")[-1] in ("StopIteration", "Exception", "BaseException") for nm in names)
+                          for names in c.trys)
+            scope = c.where.rsplit(".", 1)[-1]
+            key = (module_of(c.where), scope, f"next: line {c.lineno}")
+            if key in seen:
+                continue
+            seen[key] = guarded
+            n += 1
+            run.ob("R1", module_of(c.where), scope, f"next({sym.pretty(c.args[0])[:40]}) without a default", guarded,
+                   "" if guarded else
+                   f"next({sym.pretty(c.args[0])[:40]}) is called without a default and outside try/except StopIteration: when the "
+                   f"records run out (a lookup whose END record was dropped) it raises StopIteration - RuntimeError inside a "
+                   f"generator - and the trace stream ends", facts={"class": "next"}, line=c.lineno)
     return n
 
 
